@@ -12,6 +12,10 @@ SHAPE_PAIRS = [((1, 1), (1, 3)), ((1, 3), (1, 3)), ((2, 2), (2, 2)), ((2, 3), (2
 SHAPE_PAIRS_THOROUGH = SHAPE_PAIRS + [((3, 3), (3, 3)), ((3, 3), (2, 2)), ((2, 4), (4, 2))]
 
 
+# earlier recipe steps of the 'recipe2' variant: every well of the plate changes before the judged step runs
+PRELUDE = [T('C2', 'P', '7 uL'), T('C2', 'Q', '5 uL')]
+
+
 def geometries(R, C):
     """Every slice geometry of an R x C plate as selector expressions (1-based ints, a few label spellings)."""
     rows, cols = selectors.default_rows(R), selectors.default_cols(C)
@@ -105,6 +109,10 @@ def cases(shape_p, shape_q):
             out.append(T(['P', pa, sb], 'D', '2 uL'))
             out.append({'op': 'remove', 'obj': ['P', pa, sb], 'what': 'water'})
             out.append({'op': 'fill_to', 'obj': ['P', pa, sb], 'solvent': 'tea', 'q': '300 uL'})
+            # pairing decisions (1 -> N, N -> 1, element-wise) must use the sub-slice's own shape and size
+            for g in gq[:3] + gq[-4:]:
+                out.append(T(['P', pa, sb], ref_of('Q', g), '2 uL'))
+                out.append(T(ref_of('Q', g), ['P', pa, sb], '2 uL'))
     # between two versions of one plate (distinct objects, same name): they are different plates
     for g1, g2 in [(a, b) for a in gp for b in gp][::max(1, len(gp) * len(gp) // 40)] + [(g, g) for g in gp]:
         out.append(T(ref_of('Pv', g1), ref_of('P', g2), '3 uL'))
@@ -183,18 +191,34 @@ def judge(pp, subs, world, act, via):
         if key in act and e1.region(world, act[key])[0] is None:
             return [], ('not-judged', 'sub-slice outside the judged forms')
     feat = feat_of(world, act) + f",via={via}"
-    desc = ('recipe step ' if via == 'recipe' else '') + e1.act_str(act)
+    desc = {'direct': '', 'recipe': 'recipe step ', 'recipe2': 'second recipe step '}[via] + e1.act_str(act)
+    called_on = world
+    prelude = []
+    if via == 'recipe2':
+        # the step comes second in its recipe, after a step that changed the plates it addresses: it must act on the wells
+        # as that earlier step left them (its operands are still taken from the declared objects, as a user writes it)
+        names = {e1.refname(act[k]) for k in ('src', 'dst', 'obj') if k in act}
+        prelude = [p for p in PRELUDE if e1.refname(p['dst']) in names]
+        for p in prelude:
+            o = e1.apply(pp, subs, world, p)
+            if not o['ok']:
+                raise env.InternalError(f"prelude {e1.act_str(p)} failed: {o['exc']!r}")
+            world = e1.commit(world, o)
+        desc += f" (after {' ; '.join(e1.act_str(p) for p in prelude)})"
     try:
         want = fold(pp, subs, world, act)
         fexc = None
     except Exception as e:  # noqa
         want, fexc = None, e
     env.clear_caches(pp)
-    fp = e1.exact_world(world)
-    obs = (e1.apply_via_recipe if via == 'recipe' else e1.apply)(pp, subs, world, act)
+    fp = e1.exact_world(called_on)
+    if via == 'direct':
+        obs = e1.apply(pp, subs, world, act)
+    else:
+        obs = e1.apply_via_recipe(pp, subs, called_on, act, prelude)
     oc = 'ok' if obs['ok'] else type(obs['exc']).__name__
     cls = (feat, 'fold-raises' if fexc is not None else want if isinstance(want, str) else 'fold-ok', oc)
-    if e1.exact_world(world) != fp:
+    if e1.exact_world(called_on) != fp:
         return [V(f"plate-op | argument-mutated | {feat}", f"{desc} modified its arguments", case)], cls
     if want == 'DONTCARE':
         return [], cls
@@ -213,7 +237,7 @@ def judge(pp, subs, world, act, via):
             return [V(f"plate-op | wrong-exception | {feat}",
                       f"{desc} raised {oc}: {obs['exc']} where the per-well operation raises ValueError", case, 'ValueError', oc)], cls
         return [], cls
-    if not obs['ok'] and via == 'recipe' and act['op'] == 'fill_to' and isinstance(act['obj'], list):
+    if not obs['ok'] and via != 'direct' and act['op'] == 'fill_to' and isinstance(act['obj'], list):
         whole = e1.apply(pp, subs, world, dict(act, obj=e1.refname(act['obj'])))
         if not whole['ok'] and type(whole['exc']) is type(obs['exc']):
             return [V("plate-op | fill_to-on-slice-fills-every-well | via=recipe,outcome",
@@ -232,13 +256,13 @@ def judge(pp, subs, world, act, via):
             d = same_container(upost[addr], want[addr])
             if d:
                 kind = 'per-well-mismatch'
-                if via == 'recipe' and act['op'] == 'fill_to' and isinstance(act['obj'], list):
+                if via != 'direct' and act['op'] == 'fill_to' and isinstance(act['obj'], list):
                     kind = 'per-well-mismatch'
                 return [V(f"plate-op | {kind} | {feat}",
                           f"{desc}: {addr} differs from the same operation on a stand-alone container with that well's contents: "
                           f"{d}", case)], cls
         elif c.contents != upost[addr].contents or c.volume != upost[addr].volume:
-            if via == 'recipe' and act['op'] == 'fill_to' and isinstance(act['obj'], list):
+            if via != 'direct' and act['op'] == 'fill_to' and isinstance(act['obj'], list):
                 # is it exactly the known 'whole plate first' behaviour?
                 whole = e1.apply(pp, subs, world, dict(act, obj=e1.refname(act['obj'])))
                 if whole['ok']:
@@ -264,8 +288,8 @@ def _worker(item):
     viols, classes = [], set()
     for ai in range(lo, hi):
         act = acts[ai]
-        for via in ('direct', 'recipe'):
-            if via == 'recipe' and act['op'] == 'transfer' and 'Pv' in (e1.refname(act['src']), e1.refname(act['dst'])):
+        for via in ('direct', 'recipe', 'recipe2'):
+            if via != 'direct' and act['op'] == 'transfer' and 'Pv' in (e1.refname(act['src']), e1.refname(act['dst'])):
                 continue          # a recipe rightly refuses two objects carrying the same name (C16)
             vs, cls = judge(pp, subs, world, act, via)
             for v in vs:
@@ -275,7 +299,7 @@ def _worker(item):
             if e1.exact_world(world) != fp:
                 subs, world = e1.build(pp, vidx, spec, hist)
                 fp = e1.exact_world(world)
-    return viols, classes, 2 * (hi - lo)
+    return viols, classes, 3 * (hi - lo)
 
 
 def run(col):
@@ -283,7 +307,8 @@ def run(col):
     col.rule = ("plate shape pairs (1x1,1x3) (1x3,1x3) (2x2,2x2) (2x3,2x2) (2x3,3x2) (3x2,3x2) with non-uniform seeded wells x every "
                 "slice geometry (all single wells, all contiguous rectangles incl. rows/columns/whole, stepped, lists, the Plate "
                 "object) x {container->slice, slice->container in L, g, mol, U and beyond capacity/content, remove x 2, fill_to x "
-                "3, slice->slice over all geometry pairs x 2 units, a same-plate family} x {direct, recipe step}; oracle: the "
+                "3, slice->slice over all geometry pairs x 2 units, a same-plate family} x {direct, only recipe step, second recipe step "
+                "after a step that changed the addressed plates}; oracle: the "
                 "same operation folded over free-standing copies of the addressed wells, frame bit-identical, refusal iff a "
                 "well refuses, shape rules. Non-trivial = distinct (operation, forms, pairing, via, fold outcome, outcome)")
     col.assumptions += ["a list-addressed region against a rectangular one of the same size is don't-care",
